@@ -24,6 +24,7 @@ from __future__ import annotations
 
 import contextlib
 import copy
+import enum
 import io
 import itertools
 import json
@@ -486,25 +487,54 @@ def shard_cli_fresh(shard):
 # E2: histories over the process-wide memo tables
 # --------------------------------------------------------------------------------------------
 
+def _key(k):
+    return tuple(k) if isinstance(k, tuple) else repr(k)
+
+
 def freeze(x):
     import collections
     if isinstance(x, dict):
-        return tuple(sorted(((repr(k), freeze(v)) for k, v in x.items())))
-    if isinstance(x, (list, tuple)):
-        return tuple(freeze(v) for v in x)
-    if isinstance(x, (set, frozenset)):
-        return tuple(sorted(repr(freeze(v)) for v in x))
+        try:
+            return tuple(sorted([(_key(k), freeze(v)) for k, v in x.items()]))
+        except TypeError:
+            return tuple(sorted(((repr(k), repr(freeze(v))) for k, v in x.items())))
     if isinstance(x, (int, str, float, bool)) or x is None:
         return x
+    if isinstance(x, enum.Enum):
+        return x.name
+    if isinstance(x, (list, tuple)):
+        return tuple([freeze(v) for v in x])
+    if isinstance(x, (set, frozenset)):
+        return tuple(sorted([repr(freeze(v)) for v in x]))
     if isinstance(x, collections.deque):
         return ("deque",) + tuple(freeze(v) for v in x)
     return repr(x)
 
 
+_SLOTS = None
+
+
 def _state_containers():
     """(key, object) for every mutable container bound at module level or as a class attribute in
-    the three modules, and every lru_cache-like callable (has cache_clear)."""
+    the three modules, and every lru_cache-like callable (has cache_clear).  The names are found
+    once; the objects are looked up at every use (a container may be re-bound)."""
+    global _SLOTS
+    if _SLOTS is None:
+        lib()
+        _SLOTS = _scan_state_slots()
+    out = []
+    for key, owner, attr in _SLOTS:
+        v = vars(owner).get(attr)
+        if isinstance(v, (staticmethod, classmethod)):
+            v = v.__func__
+        if v is not None:
+            out.append((key, v))
+    return out
+
+
+def _scan_state_slots():
     import collections
+    mutable = (list, dict, set, collections.deque)
     out = []
     for name in MODS:
         mod = sys.modules.get(name)
@@ -513,19 +543,17 @@ def _state_containers():
         for k, v in sorted(vars(mod).items()):
             if k.startswith("__"):
                 continue
-            if isinstance(v, (list, dict, set, collections.deque)):
-                out.append(((name, k), v))
+            if isinstance(v, mutable):
+                out.append(((name, k), mod, k))
             elif hasattr(v, "cache_clear") and getattr(v, "__module__", None) == name:
-                out.append(((name, k), v))
+                out.append(((name, k), mod, k))
             elif isinstance(v, type) and getattr(v, "__module__", None) == name:
                 for ck, cv in sorted(vars(v).items()):
                     if ck.startswith("__"):
                         continue
                     raw = cv.__func__ if isinstance(cv, (staticmethod, classmethod)) else cv
-                    if isinstance(cv, (list, dict, set, collections.deque)):
-                        out.append(((name, v.__name__ + "." + ck), cv))
-                    elif hasattr(raw, "cache_clear"):
-                        out.append(((name, v.__name__ + "." + ck), raw))
+                    if isinstance(cv, mutable) or hasattr(raw, "cache_clear"):
+                        out.append(((name, v.__name__ + "." + ck), v, ck))
     return out
 
 
@@ -654,21 +682,27 @@ def warm_histories(model):
 
 
 def shard_history(shard):
-    fi, bases, depth = shard
+    fi, bases, wi, depth = shard
     part = Partial()
     model = HistoryModel(bases)
+    seen = set()
+
+    def build(hist):
+        canon, viols = model.build(hist)
+        seen.add(hash(canon))
+        return canon, viols
 
     def on_violation(hist, v):
         part.violation("history", {"bases": model.bases, "history": [list(op) for op in hist]}, v)
 
-    st = bfs(warm_histories(model), model.menu, model.build, depth, on_violation)
+    st = bfs([warm_histories(model)[wi]], model.menu, build, depth, on_violation)
     part.add(st.transitions, 0)
-    part.bump("history_states", st.states)
     part.bump("history_transitions", st.transitions)
-    part.sample({"sub": "history", "family": fi, "bases": model.bases,
-                 "history": st.sample_histories[-1] if st.sample_histories else []}, cap=1)
-    closed = bool(st.per_depth and st.per_depth[-1] == 0)
-    return part, (st.states, st.transitions, st.depth_completed, closed, st.sample_histories)
+    if wi == 0:
+        part.sample({"sub": "history", "family": fi, "bases": model.bases,
+                     "history": st.sample_histories[-1] if st.sample_histories else []}, cap=1)
+    closed = st.max_depth_seen < depth
+    return part, (fi, seen, st.transitions, closed, st.sample_histories)
 
 
 def fresh_observations(bases, hist):
@@ -828,22 +862,28 @@ def run(ctx, only=None):
     if want("history"):
         depth = 3 if quick else 4
         fams = families()
-        res = ctx.pmap(shard_history, [(i, fam, depth) for i, fam in enumerate(fams)])
-        ctx.states = sum(r[0] for r in res)
-        ctx.transitions = sum(r[1] for r in res)
+        nwarm = len(warm_histories(HistoryModel(fams[0])))
+        res = ctx.pmap(shard_history, [(i, fam, wi, depth) for wi in range(nwarm)
+                                       for i, fam in enumerate(fams)])
+        per_family = [set() for _ in fams]
+        for r in res:
+            per_family[r[0]] |= r[1]
+        ctx.states = sum(len(s) for s in per_family)
+        ctx.transitions = sum(r[2] for r in res)
         ctx.traces = ctx.transitions
-        ctx.bounds["history"] = {"depth": depth, "families": fams,
+        ctx.bounds["history"] = {"depth_beyond_each_initial_state": depth, "families": fams,
                                  "operations_per_family": [len(history_menu(f)) for f in fams],
                                  "initial_states": ["fresh", "all bases through rightmost then polynomial",
                                                     "all bases through topmost (iterators)"],
-                                 "closed_under_all_operations": [r[3] for r in res]}
-        ctx.section("history", states=ctx.states, transitions=ctx.transitions,
-                    closed=[r[3] for r in res])
+                                 "states_per_family": [len(s) for s in per_family],
+                                 "closed_under_all_operations": all(r[3] for r in res)}
+        ctx.section("history", states=ctx.states, transitions=ctx.transitions)
         # fresh-interpreter cross-check of a slice of the histories
         shards = []
-        for fam, r in zip(fams, res):
+        for fi, fam in enumerate(fams):
             model = HistoryModel(fam)
-            hs = [tuple(map(tuple, h)) for h in r[4][:(2 if quick else 4)]]
+            samples = [h for r in res if r[0] == fi for h in r[4]]
+            hs = [tuple(map(tuple, h)) for h in samples[-(1 if quick else 4):]]
             hs.append(tuple(model.menu))                       # every operation once, in menu order
             hs.append(tuple(reversed(model.menu)))
             for h in hs:
